@@ -108,6 +108,9 @@ def const_str(node):
     return None
 
 
+VOLATILE_FORMATS = ("%04i-%02i-%02i",)      # the CIF creation date: not part of what the format carries
+
+
 class Method:
     """Everything extracted from one function body, in source order."""
 
@@ -138,7 +141,8 @@ class Method:
                         counts[nm.id] = counts.get(nm.id, 0) + 1
             if isinstance(node, ast.Assign) and len(node.targets) == 1 and isinstance(node.targets[0], ast.Name):
                 values[node.targets[0].id] = node.value
-        self.alias = {k: v for k, v in values.items() if counts.get(k) == 1}
+        # (accumulators initialised with a list/dict display are mutated later: never inlined)
+        self.alias = {k: v for k, v in values.items() if counts.get(k) == 1 and not isinstance(v, (ast.List, ast.Dict, ast.Set))}
         self._walk(func)
 
     def inline(self, node, depth=0):
@@ -159,6 +163,10 @@ class Method:
         for node in ast.walk(func):
             if self.writer and isinstance(node, ast.BinOp) and isinstance(node.op, ast.Mod):
                 text = const_str(node.left)
+                if text is not None and text in VOLATILE_FORMATS:
+                    for sub in ast.walk(node.left):
+                        taken.add(id(sub))
+                    continue
                 if text is not None:
                     items, names = parse_percent(fn, node, text)
                     r = node.right
@@ -669,6 +677,23 @@ def gen_pdb(o):
     if not any(isinstance(n, ast.Compare) and ast.unparse(n) == "len(line) < 80" for n in ast.walk(r.func)):
         _refuse(fn, r.func, "parseLines: lines are no longer padded to 80 characters")
     o.nat("pdb_r_pad", 80)
+    rsrc = assign_src(fn, r, "record")
+    if rsrc == "words[0]":
+        o.boolean("pdb_r_record_cols", False)
+    elif rsrc == "line[:6].strip()":
+        o.boolean("pdb_r_record_cols", True)
+    else:
+        _refuse(fn, r.func, "parseLines: record name is taken from %s" % rsrc)
+    order = [n.value for st in ast.walk(ast.parse(open(fn).read())) if isinstance(st, ast.Assign)
+             and ast.unparse(st.targets[0]) == "orderOfRecords" for n in st.value.elts]
+    if not order or not all(isinstance(x, str) for x in order):
+        _refuse(fn, r.func, "orderOfRecords is not a list of string literals")
+    seen = []
+    for x in order:
+        if x not in seen:
+            seen.append(x)
+    o.lines.append("Definition pdb_r_valid : list str := [%s]." % "; ".join(coq_str(fn, x) for x in seen))
+    o.table["pdb_r_valid"] = seen
     o.rng("pdb_r_title_cont", *slice_of(fn, r, "continuation", r"line\[(\d+):(\d+)\]"))
     tl = [s for s in r.subs if s[1] == "line" and s[3] == -1]
     if len(tl) != 2 or tl[0][2] != tl[1][2]:
@@ -697,7 +722,153 @@ def gen_pdb(o):
         has_compare(fn, r, "record", rec)
 
 
-GENERATORS = [gen_xyz, gen_rawxyz, gen_pdffit, gen_discus, gen_pdb]
+XCFG_AUX = [("occupancy", "a.occupancy"), ("Uiso", "uflat[0]"), ("U11", "uflat[0]"), ("U22", "uflat[4]"), ("U33", "uflat[8]"),
+            ("U12", "uflat[1]"), ("U13", "uflat[2]"), ("U23", "uflat[5]")]
+
+
+def gen_xcfg(o):
+    from decimal import Decimal
+    fn, m = load("p_xcfg", "P_xcfg", ["toLines", "parseLines"], toplevel=["_assign_auxiliaries"])
+    w, r = m["toLines"], m["parseLines"]
+    o.spec(fn, "xcfg_w_nparticles", one_format(fn, w, "Number of particles", starts("Number of particles"), ["len(stru)"]))
+    fa = one_format(fn, w, "A", starts("A = "))
+    o.spec(fn, "xcfg_w_A", fa)
+    o.spec(fn, "xcfg_w_H0", one_format(fn, w, "H0", starts("H0("), ["i + 1", "j + 1", "stru.lattice.base[i, j]"]))
+    o.spec(fn, "xcfg_w_entry_count", one_format(fn, w, "entry_count", starts("entry_count")))
+    o.spec(fn, "xcfg_w_auxiliary", one_format(fn, w, "auxiliary", starts("auxiliary["), ["i", "p_auxiliaries[i][0]"]))
+    o.spec(fn, "xcfg_w_mass", one_format(fn, w, "atomic mass", lambda f: sig(f) == "f" and len(f["items"]) == 1, ["AtomicMass.get(p_element, 0.0)"]))
+    o.lit(fn, "xcfg_w_novel", one_literal(fn, w, ".NO_VELOCITY.", lambda t: t == ".NO_VELOCITY."))
+    precs = {b["item"][1] for b in w.braces}
+    exprs = [b["expr"] for b in w.braces]
+    if exprs != ["pos[0]", "pos[1]", "pos[2]", "v[0]", "v[1]", "v[2]"] or len(precs) != 1:
+        _refuse(fn, w.func, "toLines: entry templates are %s" % [b["text"] for b in w.braces])
+    dyn = [ast.unparse(n) for n in ast.walk(w.func) if isinstance(n, ast.BinOp) and ast.unparse(n).startswith("'{' + e + ")]
+    mm = dyn and re.fullmatch(r"'\{' \+ e \+ ':\.(\d+)g\}'", dyn[0])
+    if not mm or int(mm.group(1)) not in precs:
+        _refuse(fn, w.func, "toLines: auxiliary entry template changed: %s" % dyn)
+    o.nat("xcfg_w_entry_prec", precs.pop())
+    if not any(isinstance(n, ast.Call) and ast.unparse(n) == "' '.join(fmwords)" for n in ast.walk(w.func)):
+        _refuse(fn, w.func, "toLines: entry fields are no longer joined by one blank")
+    if "pos = a.xyz / p_A + p_dxyz" not in [ast.unparse(n) for n in ast.walk(w.func) if isinstance(n, ast.Assign)]:
+        _refuse(fn, w.func, "toLines: reduced position is no longer a.xyz / p_A + p_dxyz")
+    tuples = [(n.elts[0].value, n.elts[1].value) for n in ast.walk(w.func) if isinstance(n, ast.Tuple) and len(n.elts) == 2
+              and all(isinstance(e, ast.Constant) and isinstance(e.value, str) for e in n.elts)]
+    if sorted(tuples) != sorted(XCFG_AUX):
+        _refuse(fn, w.func, "toLines: auxiliary (name, expression) pairs are %s" % tuples)
+    src = ast.unparse(w.func)
+    for need in ("if a.occupancy != 1.0:", "if stru.lattice.isanisotropic(a.U):", "if p_allUzero and numpy.any(a.U != 0.0):",
+                 "numpy.any(allU[:, 0, 1] != 0.0)", "numpy.any(allU[:, 0, 2] != 0.0)", "numpy.any(allU[:, 1, 2] != 0.0)",
+                 "if a.element != p_element:", "re.match('(occupancy|[BU]iso|[BU][123][123])$', aux)",
+                 "p_entry_count = (3 if p_NO_VELOCITY else 6) + len(p_auxiliaries)"):
+        if need not in src:
+            _refuse(fn, w.func, "toLines: expected statement not found: %s" % need)
+    # atomic masses
+    tree = ast.parse(open(fn).read())
+    am = [st for st in tree.body if isinstance(st, ast.Assign) and ast.unparse(st.targets[0]) == "AtomicMass"]
+    if len(am) != 1 or not isinstance(am[0].value, ast.Dict):
+        _refuse(fn, 0, "AtomicMass is not a dictionary literal")
+    rows = []
+    for k, v in zip(am[0].value.keys, am[0].value.values):
+        if not (isinstance(k, ast.Constant) and isinstance(k.value, str) and isinstance(v, ast.Constant) and isinstance(v.value, (int, float))):
+            _refuse(fn, am[0], "AtomicMass entry is not 'symbol': number")
+        d = Decimal(float(v.value))          # exact value of the double the source denotes
+        sign, digits, exp = d.as_tuple()
+        mant = int("".join(map(str, digits)))
+        if exp > 0:
+            mant, exp = mant * 10 ** exp, 0
+        rows.append("(%s, Dec false %d%%N %d)" % (coq_str(fn, k.value), mant, -exp))
+    o.lines.append("Definition xcfg_masses : list (str * dec) := [%s]." % "; ".join(rows))
+    o.table["xcfg_masses"] = len(rows)
+    # reader
+    rsrc = ast.unparse(r.func)
+    pats = {"xcfg_r_nparticles": r"line\.find\('(Number of particles =)'\) != 0", "xcfg_r_A": r"line\.find\('(A =)'\) == 0",
+            "xcfg_r_H0": r"line\.find\('(H0\()'\) == 0", "xcfg_r_novel": r"line\.find\('(\.NO_VELOCITY\.)'\) == 0",
+            "xcfg_r_entry_count": r"line\.find\('(entry_count =)'\) == 0"}
+    for nm, pat in pats.items():
+        mm = re.search(pat, rsrc)
+        if not mm:
+            _refuse(fn, r.func, "parseLines: header test for %s not found" % nm)
+        o.lit(fn, nm, mm.group(1).replace("\\", ""))
+    o.nat("xcfg_r_nparticles_from", assign_index(fn, r, "xcfg_Number_of_particles", r"int\(line\[(\d+):\]\.split\(None, 1\)\[0\]\)") if False else
+          int(re.search(r"xcfg_Number_of_particles = int\(line\[(\d+):\]\.split\(None, 1\)\[0\]\)", rsrc).group(1)))
+    o.nat("xcfg_r_A_from", int(re.search(r"xcfg_A = float\(line\[(\d+):\]\.split\(None, 1\)\[0\]\)", rsrc).group(1)))
+    mm = re.search(r"i, j = \(int\(line\[(\d+)\]\) - 1, int\(line\[(\d+)\]\) - 1\)", rsrc)
+    m2 = re.search(r"xcfg_H0\[i, j\] = float\(line\[(\d+):\]\.split\(None, 1\)\[0\]\)", rsrc)
+    m3 = re.search(r"xcfg_entry_count = int\(line\[(\d+):\]\.split\(None, 1\)\[0\]\)", rsrc)
+    if not (mm and m2 and m3):
+        _refuse(fn, r.func, "parseLines: H0 / entry_count slices not recognised")
+    o.natlist("xcfg_r_H0_cols", [int(mm.group(1)), int(mm.group(2)), int(m2.group(1))])
+    o.nat("xcfg_r_entry_count_from", int(m3.group(1)))
+    if "re.compile('^auxiliary\\\\[(\\\\d+)\\\\] =')" not in rsrc:
+        _refuse(fn, r.func, "parseLines: auxiliary pattern changed")
+    for need in ("xyz = [xcfg_A * xi for xi in fields[:3]]", "p_element = w[:1].upper() + w[1:].lower()",
+                 "if len(words) == 1 and isfloat(words[0]):", "elif len(words) <= 1:",
+                 "elif len(words) == xcfg_entry_count and p_element is not None:",
+                 "ecnt = len(p_auxiliary) + (3 if xcfg_NO_VELOCITY else 6)"):
+        if need not in rsrc:
+            _refuse(fn, r.func, "parseLines: expected statement not found: %s" % need)
+
+
+CIF_ATOM_ROLES = ["a_site_label[i]", "a.element", "a.xyz[0]", "a.xyz[1]", "a.xyz[2]", "a.Uisoequiv", "a_adp_type[i]", "a.occupancy"]
+
+
+def gen_cif(o):
+    fn, m = load("p_cif", "P_cif", ["toLines"])
+    w = m["toLines"]
+    meta = [f for f in w.formats if sig(f) == "ss" and f["items"][0][0] == "str"]
+    cell = [f for f in w.formats if sig(f) == "sg"]
+    if len(meta) != 5 or len({str(f["items"]) for f in meta}) != 1 or len(cell) != 6 or len({str(f["items"]) for f in cell}) != 1:
+        _refuse(fn, w.func, "toLines: expected 5 uniform '%-31s %s' and 6 uniform '%-31s %.6g' records")
+    o.spec(fn, "cif_w_meta", meta[0])
+    o.spec(fn, "cif_w_cell", cell[0])
+    rows = []
+    for f in meta:
+        k = ast.literal_eval(f["args"][0])
+        v = "@DATE@" if "time.gmtime" in f["args"][1] else ast.literal_eval(f["args"][1])
+        rows.append((k, v))
+    o.lines.append("Definition cif_w_meta_rows : list (str * str) := [%s]." % "; ".join("(%s, %s)" % (coq_str(fn, k), coq_str(fn, v)) for k, v in rows))
+    o.table["cif_w_meta_rows"] = rows
+    keys = [ast.literal_eval(f["args"][0]) for f in cell]
+    if [f["args"][1] for f in cell] != ["stru.lattice." + x for x in ("a", "b", "c", "alpha", "beta", "gamma")]:
+        _refuse(fn, w.func, "toLines: cell records print %s" % [f["args"][1] for f in cell])
+    o.lines.append("Definition cif_w_cell_keys : list str := [%s]." % "; ".join(coq_str(fn, k) for k in keys))
+    o.table["cif_w_cell_keys"] = keys
+    o.spec(fn, "cif_w_label", one_format(fn, w, "site label", lambda f: sig(f) == "si" and len(f["items"]) == 2,
+                                         ["a.element", "cnt"]))
+    if "cnt = element_count[a.element] = element_count.get(a.element, 0) + 1" not in ast.unparse(w.func):
+        _refuse(fn, w.func, "toLines: site label counter changed")
+    o.spec(fn, "cif_w_atom", one_format(fn, w, "atom_site row", lambda f: sig(f) == "ssffffsf", CIF_ATOM_ROLES))
+    o.spec(fn, "cif_w_aniso", one_format(fn, w, "aniso row", lambda f: sig(f) == "sffffff",
+                                         ["a_site_label[i]"] + ["a.U[%s]" % ij for ij in ("0, 0", "1, 1", "2, 2", "0, 1", "0, 2", "1, 2")]))
+    lits = [x for _, x in w.literals]
+    want_site = ["loop_", "  _atom_site_label", "  _atom_site_type_symbol", "  _atom_site_fract_x", "  _atom_site_fract_y", "  _atom_site_fract_z",
+                 "  _atom_site_U_iso_or_equiv", "  _atom_site_adp_type", "  _atom_site_occupancy"]
+    want_aniso = ["loop_", "  _atom_site_aniso_label"] + ["  _atom_site_aniso_U_%s" % x for x in ("11", "22", "33", "12", "13", "23")]
+    def sub(hay, needle):
+        return any(hay[i:i + len(needle)] == needle for i in range(len(hay)))
+    if not sub(lits, want_site) or not sub(lits, want_aniso) or "data_3D" not in lits:
+        _refuse(fn, w.func, "toLines: literal lines changed: %s" % lits)
+    o.lines.append("Definition cif_w_site_header : list str := [%s]." % "; ".join(coq_str(fn, x) for x in want_site))
+    o.lines.append("Definition cif_w_aniso_header : list str := [%s]." % "; ".join(coq_str(fn, x) for x in want_aniso))
+    o.lit(fn, "cif_w_data", "data_3D")
+    o.lit(fn, "cif_w_comment", "# ")
+    src = ast.unparse(w.func)
+    for need in ("if not stru.lattice.isanisotropic(a.U):", "a_adp_type.append('Uiso')", "a_adp_type.append('Uani')",
+                 "idx_aniso = [i for i in range(len(stru)) if a_adp_type[i] != 'Uiso']", "if stru.title.strip() != '':",
+                 "lines.extend(['# ' + line.strip() for line in title_lines])"):
+        if need not in src:
+            _refuse(fn, w.func, "toLines: expected statement not found: %s" % need)
+    o.table["cif_w_headers"] = [want_site, want_aniso]
+    # layout: blank lines after the title, after the 2nd and the 5th metadata record and after the cell records
+    blanks = [ln for ln, x in w.literals if x == ""]
+    ml, cl = [f["line"] for f in meta], [f["line"] for f in cell]
+    dl = [ln for ln, x in w.literals if x == "data_3D"][0]
+    ok = (len(blanks) == 4 and blanks[0] < dl < ml[0] and ml[1] < blanks[1] < ml[2] and ml[4] < blanks[2] < cl[0] and cl[5] < blanks[3])
+    if not ok:
+        _refuse(fn, w.func, "toLines: blank-line layout changed (blank lines at %s)" % blanks)
+
+
+GENERATORS = [gen_xyz, gen_rawxyz, gen_pdffit, gen_discus, gen_pdb, gen_xcfg, gen_cif]
 
 
 def build():
@@ -710,8 +881,8 @@ def build():
 def generate():
     o = build()
     head = ["(* GENERATED by translate/c04_fmt.py from parsers/p_*.py - do not edit *)",
-            "From Coq Require Import List String.", "From DS Require Import Base.C04_Text Model.C04_Fmt.",
-            "Import ListNotations.", "Local Open Scope string_scope.", ""]
+            "From Coq Require Import List String NArith.", "From DS Require Import Base.C04_Text Base.C04_Decimal Model.C04_Fmt.",
+            "Import ListNotations.", "Local Close Scope N_scope.", "Local Open Scope string_scope.", ""]
     tail = ["", "(* every descriptor, for the pinned-format obligation *)",
             "Definition all_specs : list (string * list fitem) := [" +
             "; ".join('("%s", %s)' % (n, n) for n, k in o.names if k == "spec") + "].",
